@@ -20,10 +20,8 @@ else
   git -C $SRC apply "$D/patch.diff" || { echo "patch does not apply"; exit 2; }
 fi
 for p in $props; do
-  cp $V/evidence/$p.json /tmp/seedtest_evidence_$p.$$.json 2>/dev/null   # evidence of a mutated tree is not kept
   out=$(cd $V && VERIF_SRC=$SRC VERIF_BUILD=$V/build/seed_$$ bin/vcheck $p --tier ${TIER:-quick} 2>&1)
   rc=$?
-  cp /tmp/seedtest_evidence_$p.$$.json $V/evidence/$p.json 2>/dev/null; rm -f /tmp/seedtest_evidence_$p.$$.json
   nv=$(echo "$out" | grep -c "^VIOLATION property=$p")
   echo "== $(basename $D) vs $p: exit=$rc violations=$nv"
   echo "$out" | grep "^\[rejected\]\|^\[model-drift\]\|INFRA\|purity\] .* [1-9][0-9]* differ\|tsan\] .* [1-9]" | head -6
